@@ -124,7 +124,8 @@ def standard(tier, snapshots_cost=1.0):
     quick  : U(3,<=4) x s x T{id,rev} x 11 rules, U(3,5) x s x 11 rules; U(3,<=4) x s x every second entry of the option menus (thorough: all);
              U(3,<=4) x withdrawn subsets x 11 rules; x undeclared subsets x mpls(+wigm-prf); withdrawn x undeclared (overlapping) subsets x mpls; U(2,<=8);
              W(4,2,3,{1,2}) x s in {2,3} x 11 rules + wigm defeat_batch=zero (4 candidates: qpq restarts, 2-step transfers);
-             five-candidate bullets+pair profiles BPS(5) x s in {3,4} for the batch rules (a winner elected by transfer next to sure losers);
+             five-candidate bullets+pair profiles BPS(5) x s in {3,4} and six-candidate BPS(6,{0,1,5}) for the batch rules (a winner elected by
+             transfer next to sure losers, candidates without votes, four seats);
              the repository's own test ballot files (test/blt/**.blt: real elections of 5-13 candidates; quick: the small ones + M135 + one Glasgow ward);
              a committed corpus of corner profiles (mc/corpus.json: zero-truncation, tiny surplus, triple re-valuation, prior-stage ties);
              bullet piles BU(4) of sizes {0,1,2,3,5,8,13} x s in {1,2,3} (exhausting surpluses, tied tails)
@@ -142,6 +143,8 @@ def standard(tier, snapshots_cost=1.0):
     yield from withdrawn_undeclared_family(3, spaces.U(3, 0, 3 if tier == 'quick' else 4), [{'rule': 'mpls'}])
     yield from seats_ties(4, spaces.W(4, 2, 3, (1, 2)), seats=(2, 3), ties='id', cfgs=D + ZB)
     yield from seats_ties(5, spaces.BPS(5), seats=(3, 4), ties='id', cfgs=[{'rule': 'cfer-batch'}, {'rule': 'wigm-prf-batch'}])
+    yield from seats_ties(6, spaces.BPS(6, (0, 1, 5), 1, (1,)), seats=(3, 4), ties='id',
+                          cfgs=[{'rule': 'cfer-batch'}, {'rule': 'wigm-prf-batch'}, {'rule': 'mpls'}, {'rule': 'meek'}])     # six candidates, several without votes
     yield from seats_ties(4, spaces.BU(4), seats=(1, 2, 3), ties='id', cfgs=D)
     yield from seats_ties(3, spaces.U(3, 5, 5), ties='id' if tier == 'quick' else 'idrev', cfgs=D)
     yield from repo_files(D + menus[::9], max_bytes=4000 if tier == 'quick' else 10 ** 7)
